@@ -308,8 +308,8 @@ func runC05(c *mon.Ctx) {
 			for k := 0; k < 256/w; k++ {
 				for digit := 0; digit < 7; digit++ {
 					for carry := 0; carry < 2; carry++ {
-						if pos >= 5 && (pos+k+digit+carry)%8 != 0 {
-							continue // 8-bit tables: every (window, digit, carry) class on 1/8 of the positions each
+						if pos >= 5 && (pos+k+digit+carry)%2 != 0 {
+							continue // 8-bit tables: every (window, digit, carry) class on half of the positions each
 						}
 						jobs = append(jobs, job{pos, w, k, digit, carry})
 					}
